@@ -40,7 +40,7 @@ func setup(t *testing.T) (*Gen, *bufio.Writer, func()) {
 }
 
 var unknownNonCritical = []uint64{0xF0, 0x20, 0xFC, 0xFE, 1000, 65536, 1 << 32, 1<<64 - 2}
-var unknownCritical = []uint64{0, 1, 0x1F, 0xF1, 0xFD, 1001, 65537, 1<<64 - 1}
+var unknownCritical = []uint64{0, 1, 2, 16, 30, 0x1F, 0x1E, 0xF1, 0xFD, 1001, 65537, 1<<64 - 1}
 
 func (e *Entry) hasType(t uint64) bool {
 	for i := range e.M.Fields {
